@@ -329,3 +329,106 @@ Proof.
       split; [intros [|[|i]] ? E; try discriminate; split; [reflexivity|intros ? ?; discriminate]|].
       intros ? ?; discriminate.
 Qed.
+
+(* a generator that, whenever it succeeds, has sorted the items of the data it was handed *)
+Definition sorts_items {St : Type} (gen : St -> str -> scoped -> parsed -> outcome (str * St)) : Prop :=
+  forall st c im pd text st', gen st c im pd = Ok (text, st') -> exists out, topsort (items_of pd) = Ok out.
+
+(* the five sorting back ends in multi-file mode, wrapped to the signature generate_crates takes (as in
+   Proofs/C06Multi.v) *)
+Theorem multi_generators_sort (uc : unicode) :
+  (forall cfg, sorts_items (fun st (_ : str) im pd => ts_generate_multi uc cfg st im pd)) /\
+  (forall cfg, sorts_items (fun (st : unit) c im pd => match kt_generate_multi uc cfg c im pd with
+                                                      | Ok text => Ok (text, st) | Err e => Err e | Panic s => Panic s end)) /\
+  (forall cfg, sorts_items (fun st (_ : str) (_ : scoped) pd => sw_generate_multi uc cfg st pd)) /\
+  (forall cfg, sorts_items (fun st (_ : str) (_ : scoped) pd => go_generate_multi uc cfg st pd)) /\
+  (forall cfg, sorts_items (fun st (_ : str) (_ : scoped) pd => py_generate_multi uc cfg st pd)).
+Proof.
+  repeat split; intros cfg st c im pd text st' H.
+  - apply ts_multi_sorted in H as (out & _ & (E & _) & _). eauto.
+  - destruct (kt_generate_multi uc cfg c im pd) as [t| |] eqn:E; try discriminate.
+    apply kt_multi_sorted in E as (out & _ & (E & _) & _). eauto.
+  - apply sw_multi_sorted in H as (out & _ & (E & _) & _). eauto.
+  - apply go_multi_sorted in H as (out & _ & _ & _ & (E & _) & _). eauto.
+  - apply py_multi_sorted in H as (out & _ & (E & _) & _). eauto.
+Qed.
+
+Lemma concat_outs_perm (plan : list out_plan) (outs : list (list ritem)) :
+  Forall2 (fun p out => Permutation out (items_of (op_data p))) plan outs ->
+  Permutation (map c14_decl (concat outs)) (flat_map (fun p => map c14_decl (items_of (op_data p))) plan).
+Proof.
+  induction 1 as [|p out plan outs Hp _ IH]; cbn [List.concat flat_map map]; [constructor|].
+  rewrite map_app. apply Permutation_app; [now apply Permutation_map|exact IH].
+Qed.
+
+(* a successful run of a sorting generator has sorted every crate of the plan *)
+Lemma run_ok_sorted {St : Type} (gen : St -> str -> scoped -> parsed -> outcome (str * St)) :
+  sorts_items gen ->
+  forall plan st files st', generate_crates gen st plan = (files, Ok st') ->
+    exists outs, Forall2 (fun p out => sorted_file (op_data p) out) plan outs.
+Proof.
+  intros Hs. induction plan as [|p r IH]; intros st files st' H; cbn [generate_crates] in H.
+  - exists []. constructor.
+  - destruct (gen st (op_crate p) (op_imports p) (op_data p)) as [[text st1]|e|s] eqn:Eg.
+    + destruct (generate_crates gen st1 r) as [rest fin1] eqn:Er. injection H as _ ->.
+      destruct (IH st1 rest st' Er) as (outs & Ho). destruct (Hs _ _ _ _ _ _ Eg) as (out & Eo).
+      exists (out :: outs). constructor; [now apply topsort_sorted_file|exact Ho].
+    + injection H as _ H. discriminate.
+    + injection H as _ H. discriminate.
+Qed.
+
+(* THE WORKSPACE.  For every workspace, --target-os list, language, all iteration orders of the hash containers:
+   (a) one plan entry per crate, the crates pairwise different;
+   (b) for every crate of the plan, what topsort makes of its data is ordered as C11 demands (sorted_file) and is -
+       as a multiset of declarations (kind, Rust name, generated name) - exactly the annotated items of the source
+       files whose path lies in that crate: nothing of another crate, nothing lost, nothing twice;
+   (c) the sorted sequences of all crates together are exactly the declarations of the single-file run on the same
+       sources: every item of the workspace lands in exactly one file, once;
+   (d) for EVERY generator: generate_crates produces the files in plan order, named after the plan, file number i
+       by calling the generator on crate number i's own name, imports and data (and the printer state left by
+       file i-1); it stops at the first failure; if the generator sorts (the five of multi_generators_sort) and the
+       run completes, every crate has been sorted, so (b), (c) speak about what was written. *)
+Theorem multi_workspace
+  (uc : unicode) (T ign : list str) (ho_file ho_crate : list imported -> list imported)
+  (hc : crate_types -> crate_types) (l : lang) (ws : list ws_entry) (arrivals : list (str * parsed)) :
+  parse_workspace uc T ign ho_file ws = Ok arrivals ->
+  let plan := multi_plan l hc (multi_crates ho_crate arrivals) in
+  NoDup (map op_crate plan) /\
+  (forall p out, In p plan -> topsort (items_of (op_data p)) = Ok out ->
+     sorted_file (op_data p) out /\
+     Permutation (map c14_decl out) (map c14_decl (crate_items (Proofs.C14Main.c14_infos uc T ws) (op_crate p)))) /\
+  (forall singles outs, parse_workspace_single uc T (crate_entries ws) = Ok singles ->
+     Forall2 (fun p out => topsort (items_of (op_data p)) = Ok out) plan outs ->
+     Permutation (map c14_decl (concat outs)) (map c14_decl (items_of (single_file_input singles)))) /\
+  (forall (St : Type) (gen : St -> str -> scoped -> parsed -> outcome (str * St)) (st : St) files fin,
+     generate_crates gen st plan = (files, fin) ->
+     map fst files = firstn (length files) (map op_file plan) /\
+     (exists states : list St,
+        nth_error states 0 = Some st /\
+        (forall i fname text, nth_error files i = Some (fname, Writer.Generated text) ->
+           exists p st_i st_i',
+             nth_error plan i = Some p /\ fname = op_file p /\
+             nth_error states i = Some st_i /\ nth_error states (S i) = Some st_i' /\
+             gen st_i (op_crate p) (op_imports p) (op_data p) = Ok (text, st_i')) /\
+        (forall i fname, nth_error files i = Some (fname, Writer.GenFailed) ->
+           S i = length files /\ forall st', fin <> Ok st') /\
+        (forall st', fin = Ok st' -> length files = length plan /\ nth_error states (length plan) = Some st')) /\
+     (sorts_items gen -> forall st', fin = Ok st' ->
+        exists outs, Forall2 (fun p out => sorted_file (op_data p) out) plan outs)).
+Proof.
+  intros HW plan.
+  destruct (Proofs.C14Main.partition_plan uc T ign ho_file l ho_crate hc ws arrivals HW) as (Hnd & _ & _ & Hitems).
+  fold plan in Hnd, Hitems.
+  split; [exact Hnd|]. split; [|split].
+  - intros p out Hp Ho. pose proof (topsort_sorted_file _ _ Ho) as Hs. split; [exact Hs|].
+    destruct Hs as (_ & Pm & _). etransitivity; [apply Permutation_map; exact Pm|]. now apply Hitems.
+  - intros singles outs HS Ho.
+    etransitivity; [|exact (Proofs.C14Main.partition_single uc T ign ho_file l ho_crate hc ws arrivals HW singles HS)].
+    fold plan. apply concat_outs_perm.
+    clear -Ho. induction Ho as [|p out pl os E _ IH]; constructor; [|exact IH].
+    now destruct (topsort_sorted_file _ _ E) as (_ & Pm & _).
+  - intros St gen st files fin H.
+    destruct (generate_crates_trace gen plan st files fin H) as (Hn & Hstates).
+    split; [exact Hn|]. split; [exact Hstates|].
+    intros Hs st' ->. eapply run_ok_sorted; eassumption.
+Qed.
